@@ -1,0 +1,37 @@
+//go:build verif
+
+// Contracts for package leaderrotation, checked by /verif/govc (comment-only file).
+package leaderrotation
+
+//@ func ChooseRoundRobin property C16
+//@   requires 1 <= numReplicas && numReplicas <= 4294967295
+//@   ensures [range] 1 <= result && result <= numReplicas
+//@   ensures [def] result - 1 == view % numReplicas
+
+// Uniqueness of quotient and remainder (non-negative operands).
+//@ lemma mod_unique(x int, n int, m int, s int) property C16
+//@   requires n > 0 && 0 <= s && s < n && x == m*n + s && x >= 0
+//@   ensures x % n == s && x / n == m
+
+// Equal remainders and a distance below n mean equal numbers.
+//@ lemma mod_diff(a int, b int, n int) property C16
+//@   requires n > 0 && a >= 0 && b >= 0 && a % n == b % n && a - b < n && b - a < n
+//@   ensures a == b
+//@   proof if a / n - b / n >= 1 { assert n * (a / n - b / n) >= n } else { if b / n - a / n >= 1 { assert n * (b / n - a / n) >= n } }
+
+// Every replica gets exactly one turn in any n consecutive views (no wrap of the view
+// counter): turn(v,n,id) is the offset of id's turn in the window starting at view v
+// (existence, constructively), and two offsets in the window with the same leader are
+// equal (uniqueness).
+//@ pure func rr(v int, n int) int = v % n + 1
+//@ pure func turn(v int, n int, id int) int = id - 1 >= v % n ? id - 1 - v % n : id - 1 - v % n + n
+//@ lemma rr_turn_exists(v int, n int, id int) property C16
+//@   requires 1 <= n && n <= 4294967295 && 0 <= v && v + n <= 18446744073709551615
+//@   requires 1 <= id && id <= n
+//@   ensures [exists] 0 <= turn(v, n, id) && turn(v, n, id) < n && rr(v + turn(v, n, id), n) == id
+//@   proof if id - 1 >= v % n { use mod_unique(v + (id - 1 - v % n), n, v / n, id - 1) } else { use mod_unique(v + (id - 1 - v % n + n), n, v / n + 1, id - 1) }
+//@ lemma rr_turn_unique(v int, n int, k1 int, k2 int) property C16
+//@   requires 1 <= n && n <= 4294967295 && 0 <= v && v + n <= 18446744073709551615
+//@   requires 0 <= k1 && k1 < n && 0 <= k2 && k2 < n && rr(v + k1, n) == rr(v + k2, n)
+//@   ensures [unique] k1 == k2
+//@   proof use mod_diff(v + k1, v + k2, n)
